@@ -35,6 +35,8 @@ import (
 	"com.tuntun.rangers/node/src/common"
 	"com.tuntun.rangers/node/src/common/ed25519"
 	"com.tuntun.rangers/node/src/common/ed25519/edwards25519"
+	"com.tuntun.rangers/node/src/consensus"
+	"com.tuntun.rangers/node/src/consensus/groupsig"
 	"com.tuntun.rangers/node/src/consensus/logical"
 	"com.tuntun.rangers/node/src/consensus/model"
 	"com.tuntun.rangers/node/src/consensus/vrf"
@@ -184,6 +186,8 @@ func leadZeros(b []byte) int {
 	return n
 }
 
+var helper = consensus.NewConsensusHelper(groupsig.ID{})
+
 // stake configurations used when an honest proof is pushed through validateProve
 var transportStakes = []uint64{3, 100, 3000, 200000}
 
@@ -224,6 +228,13 @@ func runHonest(r *mon.Run, c Case) (pi vrf.VRFProve) {
 			r.Count("transport_verifies_shortened", 1)
 			if !bytes.Equal(vrf.VRFProof2Hash(vrf.VRFProve(pad80(short))), vrf.VRFProof2Hash(p1)) {
 				r.Violation("C16:transport:output-differs", "VRFProof2Hash differs after transport + padding", c)
+			}
+			// observation only: ConsensusHelperImpl.VRFProve2Value takes the first 32 bytes of the
+			// UNPADDED big.Int bytes (today it only feeds a debug log in core.CastBlock)
+			if hv := helper.VRFProve2Value(p1.Big()); hv.Cmp(vrf.VRFProof2Hash(p1).Big()) != 0 {
+				r.Count("observed_helper_VRFProve2Value_differs_from_output", 1)
+			} else {
+				r.Count("observed_helper_VRFProve2Value_equals_output", 1)
 			}
 			// the node's own padding + output extraction sits in validateProve
 			for _, ts := range transportStakes {
